@@ -340,7 +340,18 @@ func (x *Exec) cquant(e *CExpr, env *CEnv) *Val {
 	g := And(guards...)
 	switch e.Op {
 	case "forall":
-		return BoolV("(forall (" + strings.Join(decls, " ") + ") " + Implies(g, body.S) + ")")
+		inner := Implies(g, body.S)
+		if len(decls) == 1 {
+			sym := strings.Fields(strings.Trim(decls[0], "()"))[0]
+			if pats := plainReadPatterns(inner, sym); len(pats) > 0 {
+				ps := ""
+				for _, p := range pats {
+					ps += " :pattern (" + p + ")"
+				}
+				return BoolV("(forall (" + decls[0] + ") (! " + inner + ps + "))")
+			}
+		}
+		return BoolV("(forall (" + strings.Join(decls, " ") + ") " + inner + ")")
 	case "exists":
 		return BoolV("(exists (" + strings.Join(decls, " ") + ") " + And(g, body.S) + ")")
 	case "setof":
@@ -377,7 +388,23 @@ func (x *Exec) dropBoundFacts(nf int, decls []string) {
 		}
 		if len(ds) > 0 {
 			delete(x.vc.factSet, f)
-			closed = append(closed, "(forall ("+strings.Join(ds, " ")+") "+f+")")
+			// 64-bit ranges, non-negativity and allocatedness of terms under a binder are dropped
+			// (spec arithmetic is mathematical); narrow ranges and representation invariants are kept.
+			if strings.Contains(f, "18446744073709551615") || strings.Contains(f, "9223372036854775807") ||
+				strings.Contains(f, "$alloc") || (strings.HasPrefix(f, "(>= ") && strings.HasSuffix(f, " 0)")) ||
+				strings.HasPrefix(f, "(and (>= ") || strings.Contains(f, "17592186044416") {
+				continue
+			}
+			// keep only facts that have a robust trigger (a plain array read at the bound variable)
+			if len(ds) != 1 {
+				continue
+			}
+			sym := strings.Fields(strings.Trim(ds[0], "()"))[0]
+			pats := plainReadPatterns(f, sym)
+			if len(pats) == 0 {
+				continue
+			}
+			closed = append(closed, "(forall ("+ds[0]+") (! "+f+" :pattern ("+pats[len(pats)-1]+")))")
 		} else {
 			kept = append(kept, f)
 		}
@@ -576,4 +603,47 @@ func (x *Exec) funcEnv(fr *Frame, st *State, c *Clause) *CEnv {
 		}
 	}
 	return env
+}
+
+// plainReadPatterns finds array reads whose index is exactly the bound variable and whose array
+// term does not mention it: (select A v). Such reads are the robust e-matching triggers.
+func plainReadPatterns(body, sym string) []string {
+	var out []string
+	seen := map[string]bool{}
+	needle := " " + sym + ")"
+	for i := 0; i+len(needle) <= len(body); i++ {
+		if body[i:i+len(needle)] != needle {
+			continue
+		}
+		// walk back to the matching "(select "
+		end := i + len(needle)
+		d := 0
+		j := end - 1
+		for ; j >= 0; j-- {
+			if body[j] == ')' {
+				d++
+			} else if body[j] == '(' {
+				d--
+				if d == 0 {
+					break
+				}
+			}
+		}
+		if j < 0 || !strings.HasPrefix(body[j:], "(select ") {
+			continue
+		}
+		term := body[j:end]
+		arr := term[len("(select ") : len(term)-len(needle)]
+		if strings.Contains(arr, sym) {
+			continue
+		}
+		if !seen[term] {
+			seen[term] = true
+			out = append(out, term)
+		}
+		if len(out) >= 4 {
+			break
+		}
+	}
+	return out
 }
